@@ -328,6 +328,24 @@ func (c *fctx) rangeStmt() []*S {
 		}
 		byteStrCall = "over" + bs + "()"
 		c.g.mark("range_over_string_conversion_of_a_byte_slice_overwritten_in_the_body")
+		switch r.Intn(3) {
+		case 1:
+			// a string VARIABLE re-assigned in the body: the operand was evaluated once
+			pre = []*S{{K: SRaw, ID: c.g.id(), Src: fmt.Sprintf("%s := \"h\\xc3\\xa9llo\"", bs)}}
+			loop.E = &X{K: XRaw, S: bs}
+			byteStrCall = bs + " = \"xy\""
+			c.g.mark("range_over_a_string_variable_reassigned_in_the_body")
+		case 2:
+			// an integer limit variable changed in the body
+			pre = []*S{{K: SRaw, ID: c.g.id(), Src: fmt.Sprintf("%s := 3", bs)}}
+			loop.E = &X{K: XRaw, S: bs}
+			byteStrCall = bs + " += 2"
+			keyInt, valInt = true, true
+			if form == 0 || form == 2 || form == 4 {
+				form = 1
+			}
+			c.g.mark("range_over_an_integer_variable_changed_in_the_body")
+		}
 	case "mapnan":
 		keyInt = false
 		loop.E = &X{K: XCall, Name: "mkf", Args: []*X{lit(r.Intn(2))}}
